@@ -319,11 +319,13 @@ def corr_bind(ctx: Ctx, drv: LeanDriver) -> None:
     funcs = [T.keyed, T.c15_sig3, T.c15_sig5]
     lines, impl = [], []
     for kind in ("mem", "sqlite"):
-        app = mk(ctx, kind, rng.choice(SERIALIZERS))
+      # second variant: a low externalisation threshold and the first parameter listed in disable_cache_args - the same call must
+      # have the same identity (and the same serialized arguments) whichever path submits it
+      for app, dis_first in ((mk(ctx, kind, rng.choice(SERIALIZERS)), False), (mk(ctx, kind, rng.choice(SERIALIZERS), min_size_to_cache=8), True)):
         for func in funcs:
-            task = app.task(func)
             sig = inspect.signature(func)
             names = list(sig.parameters)
+            task = app.task(func, disable_cache_args=(names[0],)) if dis_first else app.task(func)
             defaults = [None if p.default is inspect.Parameter.empty else p.default for p in sig.parameters.values()]
             for _ in range(5 if ctx.quick else 40):
                 vals = [rng.choice([d, d, "v" + G.gen_str(rng)]) if d is not None else "r" + G.gen_str(rng) for d in defaults]
@@ -387,15 +389,17 @@ def corr_bind(ctx: Ctx, drv: LeanDriver) -> None:
 
     lines, impl = [], []
     for kind in ("mem", "sqlite"):
-        app = mk(ctx, kind, "JsonSerializer")
+      # second variant: low externalisation threshold, the first parameter in disable_cache_args, long values: the same call
+      # must carry the same serialized arguments and identity whether it is submitted directly or through the batch path
+      for app, dis_first in ((mk(ctx, kind, "JsonSerializer"), False), (mk(ctx, kind, "JsonSerializer", min_size_to_cache=8), True)):
         for func in funcs:
-            task = app.task(func)
             sig = inspect.signature(func)
             names = list(sig.parameters)
+            task = app.task(func, disable_cache_args=(names[0],)) if dis_first else app.task(func)
             defaults = [None if p.default is inspect.Parameter.empty else p.default for p in sig.parameters.values()]
-            for _ in range((6 if kind == "sqlite" else 25) if ctx.quick else (40 if kind == "sqlite" else 300)):
+            for _ in range(((6 if kind == "sqlite" else 25) if ctx.quick else (40 if kind == "sqlite" else 300)) // (2 if dis_first else 1)):
                 pool = names + (["zz"] if rng.random() < 0.15 else [])
-                common = {k: rng.choice(["C", "d", sval()]) for k in rng.sample(pool, rng.randint(0, min(3, len(pool))))}
+                common = {k: rng.choice(["C", "d", sval()] + (["L" * 24, "M" * 40] if dis_first else [])) for k in rng.sample(pool, rng.randint(0, min(3, len(pool))))}
                 required = [n for n, d in zip(names, defaults) if d is None and n not in common]
                 if rng.random() < 0.85:  # mostly valid calls
                     keys = required + [k for k in pool if k not in required and rng.random() < 0.4]
